@@ -675,6 +675,15 @@ func runCheck(opts checkOpts) (int, map[string]any) {
 				"result": r.R.Status, "backend": r.R.Backend, "time_s": r.R.Time, "smt_bytes": fileSize(r.File)})
 		}
 	}
+	// the queries of discharged obligations are not kept (a full run of all checks wrote 1.5 GB):
+	// only those of violations and known findings stay for inspection and replay (VERIF_KEEP=1 keeps all)
+	if os.Getenv("VERIF_KEEP") == "" {
+		for _, r := range all {
+			if r.Status == "discharged" || r.Status == "cover-ok" {
+				os.Remove(r.File)
+			}
+		}
+	}
 	total := len(all) - covers + len(effAll)
 	discharged += effDischarged
 	samples = append(samples, effSamples...)
